@@ -484,9 +484,9 @@ PROVED in the third stage (this file, `Props/C07Doc.lean`, `Props/C07Lead.lean`;
     or after `import` and blanks comes a character that starts neither a name, nor `*`, nor a nested comment
     (`# import: see below`, `#import "x"`, `# import 2 files`) — ALL theorems of C07Value / C07Doc / C07Lead hold for them;
   * every escape form of normal string literals: `string_decode_general` (any list of items `plain | \x | \uXXXX | \u{X…}`:
-    the pair tree, what `build_string_value` returns, where `validate_unicode_escapes` reports an escape that denotes no
-    scalar value) and `string_decode_general_spec` (the value is `GqlString.decodeStringLiteral literal`, the spec's
-    StringValue semantics, whenever every escape denotes a scalar value);
+    the pair tree, what `build_string_value` returns — surrogate pairs combined —, which escape `validate_unicode_escapes`
+    reports) and `string_decode_general_spec` (the validation accepts iff the spec's StringValue semantics
+    `GqlString.decodeStringLiteral literal` is defined, and then the value is that);
   * block strings: `parse_render_block_string_raw` (for every body the grammar reads to its end the parsed value is EXACTLY the
     raw text between the delimiters — open finding t characterised by a theorem) and `block_string_value_spec_iff`;
     both literal forms in the two contexts where the grammar has strings — as a `Value` (through `build_value`) and as a
@@ -498,13 +498,16 @@ PROVED in the third stage (this file, `Props/C07Doc.lean`, `Props/C07Lead.lean`;
   * a final comment without line terminator: `skip_over_final_comment` (the implicit skip runs over arbitrary trivia and the
     final `#text` to the end of the input), used by `parse_render_operation_document_full`.
 
-FOUND FALSE (kept visible, witness proved): `string_decode_general_spec` does not extend to surrogate PAIRS —
+FOUND FALSE in the third stage, REPAIRED in the code (fix fff8e9c), now PROVED:
   theorem string_decode_spec_all : ∀ literal s, GqlString.decodeStringLiteral literal = some s → decode (parse literal) = s
-  is false of the model and of the code: `"\uD83D\uDE00"` denotes U+1F600 by the specification (§2.9.4, a leading and a trailing
-  surrogate written as two `\uXXXX` escapes), the parser rejects the document with a syntax error at the first escape
-  (`string_decode_surrogate_pair_counterexample`; `string_decode_general` gives the general form: the error is at the first
-  `\u` escape that denotes no scalar value). The partial version under the explicit decidable side condition "every `\u`
-  escape denotes a scalar value" is `string_decode_general_spec`.
+  was false of the model and of the code: `"\uD83D\uDE00"` denotes U+1F600 by the specification (§2.9.4, a leading and a
+  trailing surrogate written as two `\uXXXX` escapes), the parser rejected the document with a syntax error at the first
+  escape (`string_decode_surrogate_pair_counterexample`: the witness on the PRE-REPAIR validation `firstBadEscapeOld`).
+  fff8e9c made `validate_unicode_escapes` accept a lead immediately followed by a trail inside one literal and
+  `build_string_value` combine them; Model/Build.lean mirrors it (`decodeChars`, `scanEscapes`; K 0 disagreements incl. error
+  positions), and `string_decode_general_spec` now holds WITHOUT a side condition on surrogates: the validation accepts a
+  literal iff the specification assigns it a value, and then the builder returns that value
+  (`string_decode_surrogate_pair_repaired` is the kernel-checked witness on the repaired model).
 
 OPEN — carried by K/O only (stated, not proved):
 
